@@ -59,4 +59,7 @@ var directed = []string{
 	"x := a * (b + c # cmt\n)", "(\n\na + b) * 2", "(/* c */ a + b) * 2", "name /* foo\n\t\tbar\n    x*/ 'b/* - */la' /*test*/",
 	"Foo := {\n  \"super\" : [ Bar ]\n\n  # Object ID\n  #\n  \"id\" : 0\n\n  \"idx\" : 0\n\n  # Constructor\n  #\n  \"init\" : 1\n}",
 	"mutex a {\n}\n\n\n/* c */\n\nb", "import \"a\" as b\n\n/* c */\n\nfor a in b {\n}", "sink a\n    priority -1\n    suppresses []\n{\n}", "sink s\n    kindmatch [\"a\"],\n    /* c */\n\n    priority 1\n{\n}", "sink s\n    /* c */\n\n    kindmatch [\"a\"]\n{\n}", "sink s\n    kindmatch [\"a\"]\n\n\n    # c\n\n    priority 1\n{\n}", "a\n/* c */\n\npriority 1", "a\n/* c */\n\nkindmatch []", "/* a */\n\n0 /* b */ % 0", "/**/\n\n0/**/%0", "/* a */\n\nx /* b */ := /* c */ 1", "# a\n\n\nf(1) /* b */ + 2", "let [a, b] := c\nlet     [a, b] := c",
+	// a statement which needs its separating semicolon (starts with a sign or bracket) behind a statement ending in a comment / a bare return
+	"a := 1 # one\n;-b", "x := a # c\n;(x + b) * 2", "a # c\n;[1, 2][0]", "a /* c */;\n-b", "a /* c */\n;-b", "if x {\n    a # c\n    ;-b\n}", "a # c\n; +b\nd # e\n;(f)",
+	"func f() {\n    return;\n    -a\n}", "func f() {\n    return # c\n    ;-a\n}", "func f() {\n    return 1 # c\n    ;(a)\n}", "a # c\n\n;-b", "a\n# c\n;-b", "x := [1, 2] # c\n;[3][0]", "x := f() # c\n;(g)()",
 }
